@@ -572,7 +572,30 @@ def special_decls(tag):
                   ("S", dcl.name, [("tags", []), ("nick", None), ("m", {"__dict__": []})]),
                   ("S", dcl.name, [("tags", ["a"]), ("nick", ("some", "")), ("m", {"__dict__": [("", [])]})])]
     dcl.explicit = {1}
-    return [oo, ff, po, cj, din, dfl, dcl]
+    # non-zero declared defaults under derive sets with and without Default / Serialize / Eq / Ord: an omitted field must get
+    # its DECLARED default ("dark", 14, true, Some(3), [1, 2]), not the type's zero value
+    dd = []
+    base_fields = [("name", ("str",)), ("theme", ("str",)), ("size", ("int",)), ("on", ("bool",)), ("o", ("opt", ("int",))),
+                   ("xs", ("list", ("int",))), ("os", ("opt", ("str",)))]
+    dflt = {"theme": "dark", "size": 14, "on": True, "o": ("some", 3), "xs": [1, 2], "os": ("some", "é\"")}
+    awayv = {"name": "m", "theme": "", "size": 0, "on": False, "o": None, "xs": [], "os": None}
+    for i, (kind, derives) in enumerate([("model", ["Default", "Serialize", "Deserialize", "Eq", "Ord", "Hash"]),
+                                         ("model", ["Default", "PartialEq"]),
+                                         ("model", ["Serialize", "Deserialize", "Eq", "Ord"]),
+                                         ("class", ["Serialize", "Default", "PartialEq", "PartialOrd"]),
+                                         ("class", ["Default", "Deserialize", "Serialize", "Eq"])]):
+        x = Decl("%sDfD%d" % (tag, i), kind, derives, list(base_fields), caps_of(derives))
+        x.special = True
+        x.defaults = dict(dflt)
+        atd = [(f, dflt.get(f, "n")) for f, _ in base_fields]
+        x.values = [("S", x.name, list(atd)), ("S", x.name, list(atd)), ("S", x.name, [(f, awayv[f]) for f, _ in base_fields])]
+        for k in range(1, len(base_fields)):         # exactly one defaulted field away from its default, all others omitted
+            x.values.append(("S", x.name, [(f, awayv[f] if j == k else v) for j, (f, v) in enumerate(atd)]))
+        x.explicit = {1}
+        x.with_method = (i == 3)
+        x.noftext = i > 0
+        dd.append(x)
+    return [oo, ff, po, cj, din, dfl, dcl] + dd
 
 
 LADDER = [0, 1, 2, 16, 17, 63, 64, 65, 255, 256, 1000]
@@ -1831,7 +1854,7 @@ def run(chk):
         suffix = "" if vlib.ALT is None else "_" + hashlib.sha1(vlib.REPO.encode()).hexdigest()[:6]
         for bi in range(nb):
             tag = "Q%d" % bi if chk.tier == "quick" else "T%d" % bi
-            ndecl = 10 if chk.tier == "quick" else 20
+            ndecl = 8 if chk.tier == "quick" else 20
             decls = gen_decls(chk.rng, ndecl, tag + "d")
             for d in decls:
                 t = ("struct", d)
